@@ -85,6 +85,8 @@ MANIFEST = dict(
                                   "remaining length, complete tree dump, ordered diagnostics with messages, outline; relational oracle "
                                   "(locality of an edit / of a missing end keyword) on the implementation's output alone"))],
 )
+MANIFEST["text"] += " Fourth session: C09_response_local and C09_outline_local compose C09_local with the assembled diagnostics response (Model/Report.v) and with the outline characterisation: replacing the body of one method changes the response only by `contrib` of that method node and the outline only in that method's own entry; the analysers' items and the outline entries of every other declaration are the same before and after."
+
 ASSUMPTIONS = [
     "the replaced body is a sequence of well-formed tokens none of which is endproc/endfunc/end; its first non-comment token does not extend the method header",
     "base programs are produced by vlib/goldgen.py (they parse without diagnostics; programs that do not are dropped and counted) plus hand-written ones",
